@@ -202,12 +202,18 @@ def run(ctx):
                 changed = True
     rep.extra["allocating_functions"] = sorted(ALLOCS)
     n3b = 0
+    OUT_ALLOCS = {"vasprintf": 0, "asprintf": 0}
     for f in funcs:
         locs = {x.name for x in f.walk() if x.k == "VarDecl" and not x.get("static")}
         for c in f.calls():
-            if c.name not in ALLOCS:
+            if c.name in OUT_ALLOCS:
+                # allocation through an out-parameter: vasprintf (&s, ...)
+                a0 = strip_casts(c.args()[OUT_ALLOCS[c.name]]) if len(c.args()) > OUT_ALLOCS[c.name] else None
+                var = access_path(a0.c[0]) if a0 is not None and a0.k == "UnaryOperator" and a0.op == "&" else None
+            elif c.name in ALLOCS:
+                var, st = assigned_var(c)
+            else:
                 continue
-            var, st = assigned_var(c)
             if var is None or var not in locs:
                 continue
 
